@@ -498,4 +498,52 @@ deriving Repr
 def FlagEntry.ok (e : FlagEntry) : Bool :=
   if e.flag || e.ownCheck then e.cat.filterCommuting || (e.ownCheck && e.cat == .needsOwnCheck) else true
 
+/-! ### 9. the guard of `AsType._simplify_up`: when may the un-cast frame be substituted into the predicate -/
+
+/-- numpy's fixed-width numeric dtypes -/
+inductive NDType where
+  | bool | i8 | i16 | i32 | i64 | u8 | u16 | u32 | u64 | f16 | f32 | f64
+deriving DecidableEq, Repr
+
+/-- inclusive value range of the integer kinds (bool = {0,1}) -/
+def NDType.intRange : NDType → Option (Int × Int)
+  | .bool => some (0, 1)
+  | .i8 => some (-128, 127) | .i16 => some (-32768, 32767)
+  | .i32 => some (-2147483648, 2147483647) | .i64 => some (-9223372036854775808, 9223372036854775807)
+  | .u8 => some (0, 255) | .u16 => some (0, 65535) | .u32 => some (0, 4294967295)
+  | .u64 => some (0, 18446744073709551615)
+  | _ => none
+
+/-- float kinds: (storage bits, bound 2^p below which every integer is represented exactly; p = significand bits) -/
+def NDType.float : NDType → Option (Nat × Int)
+  | .f16 => some (16, 2048) | .f32 => some (32, 16777216) | .f64 => some (64, 9007199254740992)
+  | _ => none
+
+/-- the integer `z` is a value of dtype `n` without rounding or wrap-around -/
+def exactIn (n : NDType) (z : Int) : Bool :=
+  match n.intRange, n.float with
+  | some (lo, hi), _ => decide (lo ≤ z) && decide (z ≤ hi)
+  | none, some (_, b) => decide (-b ≤ z) && decide (z ≤ b)
+  | none, none => false
+
+/-- the cast `o → n` changes no value (decided from the ranges; float → wider float keeps every value) -/
+def castExact (o n : NDType) : Bool :=
+  match o.intRange, n.intRange with
+  | some (lo, hi), some (lo', hi') => decide (lo' ≤ lo) && decide (hi ≤ hi')
+  | some (lo, hi), none => (match n.float with
+      | some (_, b) => decide (-b ≤ lo) && decide (hi ≤ b)
+      | none => false)
+  | none, some _ => false
+  | none, none => (match o.float, n.float with
+      | some (w, _), some (w', _) => decide (w ≤ w')
+      | _, _ => false)
+
+/-- `np.can_cast(o, n, casting="safe")` on these dtypes: exact casts, plus 64-bit integers → float64 -/
+def numpySafe (o n : NDType) : Bool :=
+  castExact o n || ((o == .i64 || o == .u64) && n == .f64)
+
+/-- one column of `AsType._is_value_preserving`: `o == n or can_cast(o, n, "safe")`
+    (extension dtypes / strings / categoricals are not numpy dtypes: `false` unless equal) -/
+def castGuard (o n : NDType) : Bool := o == n || numpySafe o n
+
 end Dx.Pred
